@@ -56,6 +56,9 @@ pub struct FakeImpl<A, T> {
     /// set by `resume()` on a second resumption of a suspended actor (checked by the harness)
     pub double_resume: bool,
     pub dropped: bool,
+    /// harness-armed: the closure is unwound by a cancel panic (the generator swallows it:
+    /// resume() returns None and there is no panic payload)
+    pub cancel_unwind: bool,
 }
 
 pub struct Generator<'a, A, T> {
@@ -80,6 +83,7 @@ impl<'a, A, T> Generator<'a, A, T> {
             resumed: false,
             double_resume: false,
             dropped: false,
+            cancel_unwind: false,
         });
         Generator { gen: NonNull::new(Box::into_raw(b)).unwrap(), _p: PhantomData }
     }
@@ -167,7 +171,7 @@ impl<'a, A, T: ModelYield> Generator<'a, A, T> {
         i.resumes += 1;
         match i.body.take() {
             Some(b) => {
-                if i.panic.is_some() {
+                if i.panic.is_some() || i.cancel_unwind {
                     // the harness armed a panic: the closure unwinds, nothing is returned
                     std::mem::forget(b);
                     i.done = true;
